@@ -29,6 +29,20 @@ pub fn pool(i: usize) -> &'static ThreadPool {
 
 /// A random valid tile-size list (descending, each divisible by the next)
 pub fn random_tile_sizes(rng: &mut Rng, min_tile: usize, max_tile: usize) -> (TileSizes, Vec<usize>) {
+    // 35%: any valid divisor chain (sizes that are not powers of two, down
+    // to a smallest tile of 1..12), otherwise the usual powers of two
+    if rng.chance(0.35) {
+        let mut pick = vec![*rng.pick(&[1usize, 2, 3, 4, 5, 6, 7, 8, 12])];
+        let levels = 1 + rng.below(4);
+        while pick.len() < levels {
+            let next = pick[0] * *rng.pick(&[2usize, 3, 4, 5]);
+            if next > max_tile {
+                break;
+            }
+            pick.insert(0, next);
+        }
+        return (TileSizes::new(&pick).expect("valid tile sizes"), pick);
+    }
     let all: Vec<usize> = [4usize, 8, 16, 32, 64, 128]
         .into_iter()
         .filter(|t| *t >= min_tile && *t <= max_tile)
